@@ -176,6 +176,25 @@ def main(argv=None):
     except Exception:
         traceback.print_exc()
         return report.fault(prop, tier, seed, "worker pool failed", t0)
+    # mechanical scans over the class table (side conditions of the contracts)
+    from pyvc.loader import Repo as _Repo
+    scan_repo = None
+    for name, props, fn in R.scans:
+        if prop not in props:
+            continue
+        if scan_repo is None:
+            scan_repo = _Repo()
+        ts = time.time()
+        try:
+            items = fn(scan_repo)
+        except Exception as e:
+            outs.append(dict(target="scan:" + name, results=[], error="crash: %s" % e, kind_err="fault", kind="scan"))
+            continue
+        res = []
+        for label, ok, detail in items:
+            res.append(dict(name="scan:%s/%s" % (name, label), status="proved" if ok else "refuted", backend="ast-scan",
+                            time_s=0.0, kind="scan", line=0, detail=detail, model=None, witness={}, size=len(detail)))
+        outs.append(dict(target="scan:" + name, results=res, error=None, kind="scan", wall_s=round(time.time() - ts, 3)))
     return report.finish(prop, tier, seed, R, outs, t0, update_baseline=args.update_baseline)
 
 
